@@ -80,6 +80,39 @@ func f(p *d.T, h Headers, id ID, fn Fn, pp PP) {
 	_, _, _, _ = x, h, fn, pp
 }
 """,
+    # immutable structs that reach themselves through embedded pointers
+    "selfembed": """package gen
+
+// Scope embeds itself.
+// @immutable
+type Scope struct {
+	*Scope
+	Name string
+	// @mutable
+	Hits int
+}
+
+// Conn and Session embed each other.
+// @immutable
+type Conn struct {
+	*Session
+	ID int
+}
+
+// @immutable
+type Session struct {
+	*Conn
+	Key string
+}
+
+func touch(s *Scope, c *Conn, k *Session) {
+	s.Name = "x"
+	s.Hits++
+	c.ID = 1
+	k.Key = "y"
+	c.Key = "z"
+}
+""",
     # generic code using the annotated types
     "generic": """package gen
 
